@@ -76,7 +76,8 @@ class Quaternion(Vector):
         scalar = Scalar.as_scalar(scalar)
         vector = Vector3.as_vector3(vector)
 
-        (scalar, vector) = Qube.broadcast(scalar, vector)
+        (scalar, vector) = Qube.broadcast(scalar, vector,
+                                          _protected=False)
 
         # Validate denominators
         if scalar._denom_ != vector._denom_:
@@ -138,7 +139,7 @@ class Quaternion(Vector):
             angle = angle.wod
             vector = vector.wod
 
-        (angle, vector) = Qube.broadcast(angle, vector)
+        (angle, vector) = Qube.broadcast(angle, vector, _protected=False)
 
         half_angle = 0.5 * angle
         scalar = half_angle.cos()
@@ -763,7 +764,7 @@ class Quaternion(Vector):
         Units.require_angle(aj._units_)
         Units.require_angle(ak._units_)
 
-        (ai,aj,ak) = Qube.broadcast(ai,aj,ak)
+        (ai,aj,ak) = Qube.broadcast(ai,aj,ak, _protected=False)
 
         axes = axes.lower()
         try:
